@@ -1,5 +1,7 @@
 """C10 - text outside the grammar is rejected, never partially compiled."""
 import ast
+import os
+import tempfile
 from ..runner import Prop, OK, DISCARD, FAIL, HarnessError
 from .. import gen
 from .. import impl
@@ -81,6 +83,69 @@ def mutate_text(src, text):
     return text, kinds
 
 
+MTIME_NS = 1700000000 * 10 ** 9
+_DIR = []
+
+
+def compile_via_replaced_file(text):
+    """the text arrives as the new content of a file that was compiled before in this process, when it held a valid
+    program of the same size and modification time (cp -p, rsync -t, an archive unpacked over a checkout): returns
+    ('code', str) or ('raised', exception); None when the text cannot be stored as UTF-8"""
+    try:
+        data = text.encode('utf8')
+    except UnicodeEncodeError:
+        return None
+    if not _DIR:
+        _DIR.append(tempfile.mkdtemp(prefix='c10file'))
+        import atexit, shutil
+        atexit.register(shutil.rmtree, _DIR[0], True)
+    path = os.path.join(_DIR[0], 'rules_%d.prolog' % os.getpid())
+    prior = b'p.' + b' ' * (len(data) - 2) if len(data) >= 2 else b' ' * len(data)
+    from yldprolog import compiler
+    for content in (prior, data):
+        with open(path, 'wb') as f:
+            f.write(content)
+        os.utime(path, ns=(MTIME_NS, MTIME_NS))
+        try:
+            with impl.quiet_stderr():
+                code = compiler.compile_prolog_from_file(path, impl.Ctx)
+            res = ('code', code)
+        except Exception as e:      # noqa
+            res = ('raised', e)
+    return res
+
+
+def compile_via_command_line(text, position):
+    """the text as one of three sources of one command-line run (the others are the valid programs `cl_first.` and
+    `cl_last.`): returns (exit status, text of the output file); None when the text cannot be stored as UTF-8"""
+    try:
+        data = text.encode('utf8')
+    except UnicodeEncodeError:
+        return None
+    from click.testing import CliRunner
+    if not _DIR:
+        _DIR.append(tempfile.mkdtemp(prefix='c10file'))
+        import atexit, shutil
+        atexit.register(shutil.rmtree, _DIR[0], True)
+    base = os.path.join(_DIR[0], 'cl_%d_' % os.getpid())
+    names = []
+    contents = [b'cl_first.\n', b'cl_last.\n']
+    contents.insert(position, data)
+    for i, c in enumerate(contents):
+        names.append(base + '%d.prolog' % i)
+        with open(names[-1], 'wb') as f:
+            f.write(c)
+    out = base + 'out.py'
+    if os.path.exists(out):
+        os.remove(out)
+    r = CliRunner().invoke(impl.compiler.main, names + ['-o', out])
+    written = ''
+    if os.path.exists(out):
+        with open(out, encoding='utf8', errors='replace') as f:
+            written = f.read()
+    return r.exit_code, written
+
+
 def defs_in(code):
     """names of the module-level function definitions of compiler output, or None if it does not parse"""
     try:
@@ -109,7 +174,10 @@ class C10(Prop):
             'rejects and compiler returns code => violation; compiler returns code for an accepted text whose heads are '
             'plain => the set of name/arity heads found by the recogniser\'s clause splitter must equal the set of def '
             'name_arity in the output. Oracle self-check on every text: recogniser accepts <=> ANTLR reports no '
-            'lexer/parser error and reaches EOF (disagreement = harness error). Non-trivial = text outside the grammar '
+            'lexer/parser error and reaches EOF (disagreement = harness error). One case in six also arrives as the new '
+            'content of a file compiled before in the same process (then a valid program of the same size and '
+            'modification time) through compile_prolog_from_file, one in six as one of three sources of a command-line '
+            'run (first, middle or last; exit status 0 for a text outside the grammar = violation). Non-trivial = text outside the grammar '
             '(must-reject case); distinct = SHA-1 of the text.')
     assumptions = ['CPython 3.12 of /venv', 'independent recogniser, cross-checked on every generated text against ANTLR\'s own verdict',
                    'a valid program may be refused by the compiler (C10 is one-sided)']
@@ -141,6 +209,11 @@ class C10(Prop):
         if mode == 0:
             return {'text': text, 'edits': []}
         text, kinds = mutate_text(src, text)
+        v = src.n(6)
+        if v == 0:
+            return {'text': text, 'edits': kinds, 'via': 'replaced-file'}
+        if v == 1:
+            return {'text': text, 'edits': kinds, 'via': 'command-line', 'position': src.n(3)}
         return {'text': text, 'edits': kinds}
 
     def case_key(self, case):
@@ -173,6 +246,28 @@ class C10(Prop):
         if antlr != inlang:
             raise HarnessError('recogniser (%s) and ANTLR (%s) disagree on %r' % (inlang, antlr, text))
         classes = list(case.get('edits') or ['unmodified'])
+        if case.get('via') == 'replaced-file' and '\r' not in text:
+            r = compile_via_replaced_file(text)
+            if r is not None:
+                classes.append('also-as-replaced-file')
+                if r[0] == 'code' and not inlang:
+                    return FAIL('accepted-outside-grammar-from-replaced-file',
+                                {'text': text, 'edits': case.get('edits'), 'defs_in_output': defs_in(r[1]) if isinstance(r[1], str) else None,
+                                 'scenario': 'the file held a valid program of the same size and modification time when it was compiled before'})
+                if r[0] == 'code' and isinstance(r[1], str):
+                    exp = expected_defs(text)
+                    got = defs_in(r[1])
+                    if exp is not None and got is not None and sorted(got) != exp:
+                        return FAIL('definitions-differ-from-clauses-from-replaced-file',
+                                    {'text': text, 'expected_defs': exp, 'defs_in_output': sorted(got)})
+        if case.get('via') == 'command-line':
+            r = compile_via_command_line(text, case.get('position', 0))
+            if r is not None:
+                classes.append('also-as-command-line-source')
+                if r[0] == 0 and not inlang:
+                    return FAIL('accepted-outside-grammar-on-command-line',
+                                {'text': text, 'edits': case.get('edits'), 'position_among_3_sources': case.get('position', 0),
+                                 'exit_status': 0, 'defs_in_output': defs_in(r[1])})
         try:
             code = impl.compile_text(text)
         except Exception as e:      # noqa
